@@ -208,3 +208,22 @@ Theorem code_ri_scan_is_model : forall exons ue ds,
   Py_RIRecord.py_ri_scan exons ue ds = POk (ri_scan exons ue ds).
 Proof. exact code_ri_scan_is_model_l. Qed.
 Print Assumptions code_ri_scan_is_model.
+
+(* interjacent shape (the layout of seeded change C16-7): exons (50,70)(80,90)(100,130)(160,200), A3SS on the plus strand
+   with long exon 100-130, short site 110, flanking exon 50-70.  The transcript carries an extra exon inside both new
+   junctions; each junction yields one deletion and each deletion denotes the transcript with that junction imposed
+   (not covered by rmats_reproduces_isoform, whose alt_ss needs the flanking exon next to the alternative one). *)
+Definition ex_chrom2 : list Z := flat_map (fun _ => [65; 67; 71; 84; 84; 71]) (repeat tt 40).
+Example ex_interjacent :
+  let t := mkTx [(50, 70); (80, 90); (100, 130); (160, 200)] 50 200 in
+  let g := mkGene 1 40 210 [t] in
+  alt_ss (t_exons t) false 100 110 70 = None /\
+  exists id r1 r2, ss_convert false g (gene_seq 1 ex_chrom2 40 210) 100 130 110 130 50 70 ex_counts = Ok (id, [r1; r2]) /\
+    impose_junction (t_exons t) 70 100 = Some [(50, 70); (100, 130); (160, 200)] /\
+    denotes g ex_chrom2 t r1 [(50, 70); (100, 130); (160, 200)] /\
+    impose_junction (t_exons t) 70 110 = Some [(50, 70); (110, 130); (160, 200)] /\
+    denotes g ex_chrom2 t r2 [(50, 70); (110, 130); (160, 200)].
+Proof.
+  cbv zeta. split; [reflexivity|]. do 3 eexists. split; [vm_compute; reflexivity|].
+  split; [reflexivity|]. split; [vm_compute; reflexivity|]. split; [reflexivity|]. vm_compute. reflexivity.
+Qed.
